@@ -286,10 +286,31 @@ pub fn run(ctx: &Ctx, rep: &Report) -> Meta {
     }
     let b = boundary_cases(ctx.tier);
     par_items(ctx, rep, "boundary", &b, |c| check(rep, "boundary", c));
+    // long-lived threads: several hundred sign / verify rounds one after the other on the same thread (a counter
+    // that wraps, a buffer that is reused after growing, a cache that evicts are reached only this way)
+    let rounds = ctx.tier.pick(320usize, 2000usize);
+    let threads: Vec<usize> = (0..4).collect();
+    par_items(ctx, rep, "long-lived-thread", &threads, |&t| {
+        for k in 0..rounds {
+            if rep.aborted() {
+                break;
+            }
+            let l = [1usize, 0, 3, 2, 7, 1, 12, 4][(k + t) % 8];
+            let c = Case {
+                suite: if (k + t) % 2 == 0 { SuiteId::Sha256 } else { SuiteId::Shake256 },
+                key: KeySpec { fixture: false, ikm: BSpec { len: 32, class: 0, seed: (t * 7) as u32 + (crate::gen::splitmix(&mut ((t as u64) << 20 | k as u64)) % 4) as u32 }, key_info: OptBytes::None, key_dst: OptBytes::None },
+                header: [OptBytes::Bytes(BSpec { len: 16, class: 0, seed: k as u32 }), OptBytes::None, OptBytes::Empty][k % 3].clone(),
+                msgs: MsgVec { items: (0..l).map(|j| BSpec { len: [5usize, 0, 40][j % 3], class: 0, seed: (k * 100 + j) as u32 }).collect() },
+                msgs_none: k % 16 == 1,
+            };
+            check(rep, "long-lived-thread", &c)?;
+        }
+        Ok(())
+    });
     Meta {
         rule: "cases = (suite, key spec, header in {None, Some(b\"\"), bytes}, message vector) from edge-weighted sets, each run under BOTH suites; \
                oracle = sign Ok, verify Ok, 80-byte round trip equal and verifying, None/empty equivalence of header and message list (byte-identical signatures, cross verification); \
-               half of the cases are preceded by a warm-up history of unrelated legal calls on the same thread (other suite, blind interface, custom api_ids, refused operations); a cold-start contention phase (all workers signing and verifying vectors of 1..130 messages at once), a size sweep over every L in 0..=130 (quick) / 0..=520 (thorough), verification repeated on a freshly started thread for a quarter of the cases; non-trivial = outside the fixture envelope (fixture key and L in {1,10} and header length in {0,16}); distinct by SHA-256 fingerprint of the case"
+               half of the cases are preceded by a warm-up history of unrelated legal calls on the same thread (other suite, blind interface, custom api_ids, refused operations); a cold-start contention phase (all workers signing and verifying vectors of 1..130 messages at once), a size sweep over every L in 0..=130 (quick) / 0..=520 (thorough), verification repeated on a freshly started thread for a quarter of the cases; four long-lived threads with 320 (quick) / 2000 (thorough) sign / verify rounds each in sequence; non-trivial = outside the fixture envelope (fixture key and L in {1,10} and header length in {0,16}); distinct by SHA-256 fingerprint of the case"
             .into(),
         assumptions: vec![
             "library linked as an ordinary dependency (cfg(not(test)), features bbsplus+bbsplus_blind+cl03)".into(),
